@@ -222,11 +222,11 @@ static bool receiver_step(Ctxt &cx, RState &s, int a, const Bytes &wire, const s
 			if (s.got >= sent.size()) viol = fmt("peek reports %zd decoded bytes although every sent message was already received", n);
 			else if ((size_t) n > sent[s.got].size()) viol = fmt("peek reports %zd decoded bytes of a %zu byte message", n, sent[s.got].size());
 			else {
-				// the preview copy is not promised when the decoder cannot look at wrapped data; what IS written must be right
-				size_t k = (size_t) n < room ? (size_t) n : room, w = 0;
-				while (w < room && dst[w] != 0x5A) ++w;
+				// the reported bytes (up to the room offered) are delivered, nothing behind them is written
+				size_t k = (size_t) n < room ? (size_t) n : room, w = room;
+				while (w > k && dst[w - 1] == 0x5A) --w;
 				if (w > k) viol = fmt("peek wrote %zu bytes but reports %zd", w, n);
-				else if (w && memcmp(dst, sent[s.got].data(), w)) viol = "peeked bytes {" + hex(dst, w) + "} are not a prefix of the message in transit {" + ref::hexs(sent[s.got]) + "}";
+				else if (memcmp(dst, sent[s.got].data(), k)) viol = fmt("peek reports %zd decoded bytes but delivers {", n) + hex(dst, k) + "}, the message in transit is {" + ref::hexs(sent[s.got]) + "}";
 			}
 		}
 		free(dst);
@@ -427,7 +427,7 @@ static int l2_cb(void *arg, const message *m)
 	return 0;
 }
 struct L2Counters { uint64_t exec, nontrivial; };
-static void level2_body(Run &r, L2Counters &c, int f, const std::vector<Bytes> &msgs, Ctx &x)
+static void level2_body(Run &r, L2Counters &c, int f, const std::vector<Bytes> &msgs, Ctx &x, bool append = false)
 {
 	std::string sc = std::string(ref::framing_name[f]) + "|stream";
 	int pfd[2]; if (pipe(pfd) < 0) return;
@@ -458,7 +458,18 @@ static void level2_body(Run &r, L2Counters &c, int f, const std::vector<Bytes> &
 				if (mi < msgs.size() && phase == 0) {
 					r.hint((sc + "|push").c_str());
 					const Bytes &m = msgs[mi];
-					if (m.empty()) phase = 1;
+					if (append) {
+						// the message is handed over in parts (mpt_stream_append), some of them empty
+						Bytes cp = m; size_t h = (cp.size() + 1) / 2; uint8_t none = 0;
+						struct iovec cont[2]; message mm; uint64_t shape = x.choose(3);
+						if (shape == 0) { mm.base = cp.data(); mm.used = h; cont[0] = {&none, 0}; cont[1] = {cp.data() + h, cp.size() - h}; mm.cont = cont; mm.clen = 2; }
+						else if (shape == 1) { mm.base = &none; mm.used = 0; cont[0] = {cp.data(), cp.size()}; mm.cont = cont; mm.clen = 1; }
+						else { mm.base = cp.data(); mm.used = cp.size(); cont[0] = {&none, 0}; mm.cont = cont; mm.clen = 1; }
+						ssize_t k = LIB(mpt_stream_append(&snd, &mm)); r.note("append %zu (shape %d) -> %zd", m.size(), (int) shape, k);
+						if (k != (ssize_t) m.size()) { r.violation(sc + "|append|refused", desc + fmt(": mpt_stream_append of %zu bytes in parts returned %zd on a resizable write buffer", m.size(), k)); bad = true; }
+						phase = 1;
+					}
+					else if (m.empty()) phase = 1;
 					else { uint8_t *src = (uint8_t *) malloc(m.size()); memcpy(src, m.data(), m.size()); ssize_t k = LIB(mpt_stream_push(&snd, m.size(), src)); free(src); r.note("push %zu -> %zd", m.size(), k); if (k != (ssize_t) m.size()) { r.violation(sc + "|push|refused", desc + fmt(": mpt_stream_push(%zu) returned %zd on a resizable write buffer", m.size(), k)); bad = true; } phase = 1; }
 				} else if (mi < msgs.size() && phase == 1) {
 					r.hint((sc + "|end").c_str());
@@ -488,15 +499,53 @@ static void level2_body(Run &r, L2Counters &c, int f, const std::vector<Bytes> &
 	if (g_short_writes + g_short_reads + g_eagain != sw0) ++c.nontrivial;
 }
 
+// streams whose frames just fill or just exceed the 64 byte input queue a buffered reader starts with: the decoder
+// then needs scratch space only the stream itself can supply (zero behind the first code byte, ZPE zero pairs)
+static const std::vector<std::vector<Bytes>> &long_streams()
+{
+	static std::vector<std::vector<Bytes>> v;
+	if (v.empty()) {
+		for (size_t k : {60, 61, 62, 63, 64}) { Bytes m(1, 0); m.insert(m.end(), k, 'a'); v.push_back({m}); }
+		for (size_t k : {59, 60, 61}) { Bytes m{'x', 0, 0}; m.insert(m.end(), k, 'a'); v.push_back({m}); }
+		{ Bytes m(1, 0); m.insert(m.end(), 62, 'a'); v.push_back({m, Bytes{'b'}}); v.push_back({Bytes{'b', 0}, m}); }
+		{ Bytes m(130, 0); for (size_t i = 0; i < m.size(); i += 3) m[i] = 'c'; v.push_back({m}); }
+	}
+	return v;
+}
 void mc_jobs(Tier t, std::vector<std::string> &jobs)
 {
 	std::vector<std::vector<int>> seqs; sequences(t, seqs);
 	for (int f = 0; f < 4; ++f) for (size_t i = 0; i < seqs.size(); ++i) jobs.push_back(fmt("%d:%zu", f, i));
 	for (int f = 0; f < 4; ++f) for (size_t i = 0; i < seqs.size(); ++i) jobs.push_back(fmt("L2:%d:%zu", f, i));
+	for (int f = 0; f < 4; ++f) for (size_t i = 0; i < long_streams().size(); ++i) jobs.push_back(fmt("L2L:%d:%zu", f, i));
+	for (int f = 0; f < 4; ++f) for (size_t i = 0; i < seqs.size(); ++i) jobs.push_back(fmt("L2A:%d:%zu", f, i));
 }
 static void run(Run &r, const std::string &job, const Vec *rep)
 {
 	int f; size_t si;
+	if (job.compare(0, 4, "L2A:") == 0) {
+		if (sscanf(job.c_str() + 4, "%d:%zu", &f, &si) != 2) return;
+		std::vector<std::vector<int>> seqs; sequences(r.tier, seqs);
+		if (si >= seqs.size()) return;
+		std::vector<Bytes> alpha = alphabet(r.tier), msgs; for (int i : seqs[si]) msgs.push_back(alpha[i]);
+		L2Counters c = {};
+		int dev = r.tier == Quick ? 1 : 2;
+		if (rep) { dfs_replay(r, [&](Ctx &x) { level2_body(r, c, f, msgs, x, true); }, *rep); return; }
+		dfs(r, [&](Ctx &x) { level2_body(r, c, f, msgs, x, true); }, dev);
+		r.states += c.exec; r.count("stream_level_executions", c.exec); r.count("stream_level_append_in_parts", c.exec); r.count("nontrivial", c.nontrivial);
+		return;
+	}
+	if (job.compare(0, 4, "L2L:") == 0) {
+		if (sscanf(job.c_str() + 4, "%d:%zu", &f, &si) != 2 || si >= long_streams().size()) return;
+		const std::vector<Bytes> &msgs = long_streams()[si];
+		L2Counters c = {};
+		int dev = r.tier == Quick ? 2 : 3;
+		if (rep) { dfs_replay(r, [&](Ctx &x) { level2_body(r, c, f, msgs, x); }, *rep); return; }
+		r.require("stream_level_short_transfers");
+		dfs(r, [&](Ctx &x) { level2_body(r, c, f, msgs, x); }, dev);
+		r.states += c.exec; r.count("stream_level_executions", c.exec); r.count("stream_level_long_frames", c.exec); r.count("stream_level_short_transfers", c.nontrivial); r.count("nontrivial", c.nontrivial);
+		return;
+	}
 	if (job.compare(0, 3, "L2:") == 0) {
 		if (sscanf(job.c_str() + 3, "%d:%zu", &f, &si) != 2) return;
 		std::vector<std::vector<int>> seqs; sequences(r.tier, seqs);
